@@ -234,6 +234,11 @@ def resolved_sources(ctx):
                ('/srv/www/dist/js/bundle.js', '/srv/www/bundle.js.map', ['/srv/www/dist/js/alpha.js', '/srv/lib/beta.js']),
                ('/srv/out/a/b/c/bundle.js', '/srv/maps/bundle.js.map', ['/srv/maps/alpha.js', '/srv/out/a/beta.js']),
                ('/bundle.js', '/m/bundle.js.map', ['/alpha.js', '/m/n/beta.js']),
+               # several spellings of one location among the sources (the indices in the mappings count entries, not files)
+               ('/srv/www/dist/bundle.js', '/srv/www/dist/bundle.js.map',
+                ['/srv/www/src/alpha.js', '/srv/www/lib/../src/alpha.js', '/srv/www/src/beta.js']),
+               ('/srv/p/out.js', '/srv/p/maps/out.js.map', ['/srv/p/./a.js', '/srv/p/a.js', '/srv/p/x//a.js', '/srv/p/x/../a.js', '/srv/p/b.js']),
+               ('/srv/p/out.js', '/srv/p/out.js.map', ['/srv/p/a.js', '/srv/p/b.js', '/srv/p/a.js', '/srv/p/c/../b.js']),
                # names that are not in a Unicode normal form (what a file system may hand out) / not ASCII
                ('/srv/www/dist/bundle.js', '/srv/www/dist/bundle.js.map', ['/srv/www/src/cafe\u0301.js', '/srv/www/src/\u1112\u1161\u11ab.js']),
                ('/srv/www/di\u0308st/bundle.js', '/srv/www/maps/bundle.js.map', ['/srv/www/src/A\u030a.js', '/srv/www/src/\u212b.js'])]
@@ -258,6 +263,13 @@ def resolved_sources(ctx):
                 wanted = [posixpath.normpath(x) for x in sources]
                 afile = posixpath.normpath(posixpath.join(base, got['file']))
                 ctx.case(('resolved', out_name, map_name, normalize), True)
+                from vk.ref import refsm
+                try:
+                    refsm.decode_mappings(got['mappings'], len(got['sources']), len(got['names']))
+                except refsm.MapError as e:
+                    ctx.violation('C09:written_map_undecodable_or_out_of_range',
+                                  {'fragments': [], 'normalize': normalize, 'layout': [out_name, map_name, srcs]},
+                                  'the map written for %s (sources %r) does not decode: %s' % (out_name, got['sources'], e))
                 if got.get('names') != list(names):
                     ctx.violation('C09:written_names_differ',
                                   {'fragments': [], 'normalize': normalize, 'layout': [out_name, map_name, srcs]},
